@@ -13,16 +13,16 @@ import (
 
 // Command is sent by the supervisor to a worker process, one JSON object per line on stdin.
 type Command struct {
-	Op     string   `json:"op"` // "batch", "one", "quit"
-	From   uint64   `json:"from,omitempty"`
-	N      int      `json:"n,omitempty"`
-	Stride uint64   `json:"stride,omitempty"`
-	Index  uint64   `json:"index,omitempty"`
-	Tape   []uint32 `json:"tape,omitempty"`
-	UseTap bool     `json:"use_tape,omitempty"`
+	Op     string            `json:"op"` // "batch", "one", "quit"
+	From   uint64            `json:"from,omitempty"`
+	N      int               `json:"n,omitempty"`
+	Stride uint64            `json:"stride,omitempty"`
+	Index  uint64            `json:"index,omitempty"`
+	Tape   []uint32          `json:"tape,omitempty"`
+	UseTap bool              `json:"use_tape,omitempty"`
 	Script []json.RawMessage `json:"script,omitempty"`
-	Log    bool     `json:"log,omitempty"`
-	Dry    bool     `json:"dry,omitempty"`
+	Log    bool              `json:"log,omitempty"`
+	Dry    bool              `json:"dry,omitempty"`
 }
 
 // Reply is sent by a worker, one JSON object per line on stdout.
